@@ -609,9 +609,15 @@ func (b *UnsafeLinkBuffer) WriteDirect(extra []byte, remainLen int) error {
 		newNode.off = malloc
 		newNode.buf = origin.buf[:malloc]
 		newNode.malloc = origin.malloc
+		originUnmanaged := origin.getFlag(flagUnmanaged)
 		newNode.unsetFlag(flagUnmanaged)
 		origin.malloc = malloc
 		origin.setFlag(flagUnmanaged)
+		if originUnmanaged {
+			// origin holds memory that is not ours (caller data from WriteBinary or an
+			// earlier WriteDirect): the split-off node must not return it to the pool.
+			newNode.setFlag(flagUnmanaged)
+		}
 
 		// link nodes
 		dataNode.next = newNode
